@@ -17,6 +17,7 @@ def run(ctx):
     import prune_corr
     concurrent_runs(ctx)
     gated_literal_arguments(ctx)
+    dependencies_survive_rejected_calls(ctx)
     add_and_source_on_one_store(ctx)
     forgotten_registry(ctx)
     registry_order(ctx)
@@ -330,3 +331,67 @@ def add_and_source_on_one_store(ctx):
                 if not oc.startswith("returned") or bad:
                     ctx.fail("add-and-source-one-store", "one store object registered for a computed node and as a dependent source (store %s, max_workers=%d, scheduler=%r): run %s; %s"
                              % ("filled" if filled else "empty", workers, scheduler, oc, bad or "order fine"), {"filled": filled, "max_workers": workers, "scheduler": scheduler, "events": ev})
+
+
+def dependencies_survive_rejected_calls(ctx):
+    """A plan-building call that raises (a self-referential container among its arguments, arguments that do not bind, a node of another
+    plan) and is caught must leave the dependencies already in the plan alone: an argument of the rejected call that carries an
+    add_dependency edge - a literal, a gather, a call nobody consumes yet - still waits for what it depends on when it is used afterwards."""
+    import threading
+    import time
+    uberjob = core.use_repo()
+    loop = []
+    loop.append(loop)
+    foreign = uberjob.Plan().call(int, 1)
+    rejections = {
+        "self-referential list as a later argument": lambda plan, x: plan.call(lambda a, b: a, x, loop),
+        "self-referential list nested next to it": lambda plan, x: plan.call(lambda a: a, [x, {"k": loop}]),
+        "arguments that do not bind": lambda plan, x: plan.call(lambda a: a, x, x),
+        "node of another plan": lambda plan, x: plan.call(lambda a, b: a, x, [foreign]),
+        "gather of a self-referential list": lambda plan, x: plan.gather([x, loop]),
+    }
+    carriers = {
+        "literal": lambda plan: plan.lit(41),
+        "gather of constants": lambda plan: plan.gather([40, 1]),
+        "gather of a node": lambda plan: plan.gather([plan.call(lambda: 41)]),
+        "unconsumed call": lambda plan: plan.call(lambda: 41),
+    }
+    for rname, reject in rejections.items():
+        for cname, carrier in carriers.items():
+            for workers in (2, 4):
+                w_done = threading.Event()
+                early = []
+
+                def slow_w():
+                    time.sleep(0.12)
+                    w_done.set()
+                    return "w"
+
+                def g(x):
+                    if not w_done.is_set():
+                        early.append("g")
+                    return x
+                plan = uberjob.Plan()
+                w = plan.call(slow_w)
+                x = carrier(plan)
+                plan.add_dependency(w, x)
+                try:
+                    reject(plan, x)
+                    raised = None
+                except BaseException as e:      # noqa
+                    raised = type(e).__name__
+                ctx.case(("rejected-call-dependency", rname, cname, workers))
+                if raised is None:
+                    continue
+                c = plan.call(g, x)
+                try:
+                    core.call_watched(lambda: uberjob.run(plan, output=c, max_workers=workers, progress=None), timeout=30)
+                    oc = None
+                except core.Hang:
+                    oc = "run did not return within 30 s"
+                except BaseException as e:      # noqa
+                    oc = "run raised %s: %r" % (type(e).__name__, getattr(e, "__cause__", None))
+                if early or oc:
+                    ctx.fail("rejected-call-dependency", "w = call(slow); x = %s; add_dependency(w, x); a plan-building call with x and %s raised %s and was caught; then g(x) is added and "
+                             "the plan run with max_workers=%d: %s" % (cname, rname, raised, workers, "g started before w had finished" if early else oc),
+                             {"rejected": rname, "carrier": cname, "max_workers": workers})
